@@ -172,3 +172,18 @@ claim("C19",
       note="Known finding spheropolygon-hoomd-not-centred (the repository's own test asserts the un-centred vertices).",
       technique="TLA+ decision table / round-trip machine enumerated by TLC + spec-to-code replay",
       design_ref="DESIGN.md 5 C19")
+
+
+claim("C20",
+      text="spec/MeshFormats.tla contains reader machines for OBJ, OFF, PLY, legacy VTK, ASCII STL, X3D and HTML written from the "
+           "format definitions; files written by coxeter.io.to_* and Polyhedron.save for ConvexPolyhedron/Polyhedron shapes "
+           "(mixed face degrees, non-convex voxel solids, scales 1e-6..1e6, both signs) are tokenised without format knowledge "
+           "(each float token replaced by the id of the bit-identical coordinate) and TLC validates every file trace: the "
+           "reconstructed vertex table must equal the shape's to full double precision, face cycles must be the shape's with the "
+           "same orientation (STL: outward triangles tiling each face, checked in integers on the lattice image), declared "
+           "counts must match; corrupted canary traces must be rejected on every run; save() with unknown types and 'exporting "
+           "does not change the shape' are checked by the harness.",
+      note="Trust assumption: the readers encode the formats as known to the author (no independent parser library installed). "
+           "Known finding off-face-count-prefix is modelled as Dev_OffFaceCountPrefix so that the rest of each OFF file is still read.",
+      technique="TLA+ trace validation: file token traces checked by TLC against format reader machines",
+      design_ref="DESIGN.md 5 C20")
